@@ -20,6 +20,8 @@ class FuncReport:
         self.vacuous = []
         self.covers = {}
         self.trivial = 0
+        self.lines_hit = set()
+        self.lines_all = set()
 
 
 def contract_axioms(c):
@@ -115,6 +117,10 @@ def generate(program, cname, mode='vc', only_case=None):
         rep.notes |= ex.notes
         rep.trivial += getattr(ex, 'trivial', 0)
         rep.covers.update(ex.covers)
+        rep.lines_hit |= set(getattr(ex, 'stmt_lines', ()))
+        import ast as _ast
+        rep.lines_all |= set(getattr(n_, 'lineno', 0) for b_ in getattr(finfo.node, 'body', []) for n_ in _ast.walk(b_)
+                             if isinstance(n_, _ast.stmt) and getattr(n_, 'lineno', 0))
         # vacuity: the precondition of this case must be satisfiable
         st, args = make_entry(ex)
         ex.frames = [__import__('dvc.executor', fromlist=['Frame']).Frame(finfo, cc)]
@@ -227,6 +233,7 @@ def _gen_job(job):
             vac.append(ObText(Obligation('vacuity::hyps-of::' + o.name, 'vacuity', o.hyps, z3.BoolVal(False), cname, axioms=ax)))
         return dict(ok=True, name=cname, case_idx=case_idx, paths=rep.paths, notes=sorted(rep.notes), cases=rep.cases,
                     vacuous=rep.vacuous, covers=len(rep.covers), trivial=rep.trivial,
+                    lines_hit=sorted(rep.lines_hit), lines_all=sorted(rep.lines_all),
                     obligations=[ObText(o) for o in rep.obligations], vacuity=vac)
     except (Unsupported, CannotBind) as e:
         return dict(ok=False, name=cname, case_idx=case_idx, error='%s: %s' % (type(e).__name__, e))
@@ -267,6 +274,8 @@ def generate_parallel(program, cnames, procs=16):
         rep.cases += o['cases']
         rep.vacuous += o['vacuous']
         rep.trivial += o['trivial']
+        rep.lines_hit |= set(o.get('lines_hit', ()))
+        rep.lines_all |= set(o.get('lines_all', ()))
         rep.covers['branches@%d' % o['case_idx']] = o['covers']
         vac += o['vacuity']
     return [reports[n] for n in cnames], vac
